@@ -43,8 +43,9 @@ def rbytes(rng, n):
 def auth(scripts, cache):
     functions = env.mods()[0]
     try:
-        return functions.run_auth_scripts([bytes(s) for s in scripts],
-                                          dict(cache))
+        ss = [bytes(s) for s in scripts]
+        return functions.run_auth_scripts(ss, dict(cache),
+                                          **env.roomy_limits(*ss))
     except BaseException as e:
         return e
 
